@@ -336,6 +336,12 @@ def cfgOutSigned (o : Outcome (Setup Float)) : String :=
 def handle (op : String) (args : List String) : Option String :=
   match op with
   | "try_as_spdc" => tryAsSpdcLine args
+  | "sigfigs" =>
+    match args with
+    | [x] => do
+      let x ← parseFl x
+      pure (fl (sigfigs x))
+    | _ => none
   | "as_config" => do
     let (s, _) ← pSetup.run args
     pure (configTokensS s)
